@@ -233,6 +233,14 @@ func (c *CheckCtx) run() int {
 	if err := c.collectOverlay(); err != nil {
 		return c.fail(2, "overlay: %v", err)
 	}
+	for _, p := range c.P.Pkgs {
+		if p == "frame" {
+			// the static frame harness files use the generated wire-equality functions
+			if err := genEqFile(c); err != nil {
+				return c.fail(2, "generate: %v", err)
+			}
+		}
+	}
 	if c.P.Gen != nil {
 		if err := c.P.Gen(c); err != nil {
 			return c.fail(2, "generate: %v", err)
@@ -729,6 +737,11 @@ func (c *CheckCtx) replayFile(path string) int {
 	c.GenDir, _ = os.MkdirTemp("", "verif-replay-")
 	defer os.RemoveAll(c.GenDir)
 	c.collectOverlay()
+	for _, p := range c.P.Pkgs {
+		if p == "frame" {
+			genEqFile(c)
+		}
+	}
 	if c.P.Gen != nil {
 		if err := c.P.Gen(c); err != nil {
 			return c.fail(2, "generate: %v", err)
